@@ -1,0 +1,13 @@
+//go:build verif
+
+package unmarshal
+
+// Aliases of unexported identifiers for the verification harness (property C04).
+// No behaviour; compiled only with -tags verif.
+
+var (
+	VerifC04FingerprintLabels = fingerprintLabels
+	VerifC04EncodeLabels      = encodeLabels
+	VerifC04SanitizeLabels    = sanitizeLabels
+	VerifC04MaybeAddFp        = maybeAddFp
+)
